@@ -236,17 +236,15 @@ _NT = {}
 def nt_class(cls, n):
     """namedtuple class number cls with n fields; odd numbers are subclasses of a namedtuple class"""
     if (cls, n) not in _NT:
-        base = collections.namedtuple(f'NT{cls}_{n}', [f'f{i}' for i in range(n)])
         if cls % 2 == 1:
-            base = type(f'NTS{cls}_{n}', (base,), {'__slots__': ()})
+            # odd numbers: a strict subclass (same fields) of the namedtuple class numbered cls - 1
+            base = type(f'NTS{cls}_{n}', (nt_class(cls - 1, n),), {'__slots__': ()})
+        else:
+            base = collections.namedtuple(f'NT{cls}_{n}', [f'f{i}' for i in range(n)])
         base._verif = (cls, n)
         base.__module__ = __name__
         base.__qualname__ = base.__name__
         globals()[base.__name__] = base          # importable: pickling of treespecs
-        if cls % 2 == 1:
-            b0 = base.__mro__[1]
-            b0.__module__ = __name__
-            globals()[b0.__name__] = b0
         _NT[(cls, n)] = base
     return _NT[(cls, n)]
 
